@@ -128,20 +128,102 @@ def _histogram(verdicts, prop):
     return hist
 
 
+SIM_COUNT = {"quick": 120, "thorough": 1500}
+
+
+def model_guided(prop, tier, seed):
+    """
+    M and A of DESIGN.md: exhaustive TLC run of every slice serving the property, then model
+    behaviours (TLC -simulate on the same slice) concretised into programs for the real code.
+    Returns (programs, mc summaries).
+    """
+    from harness import modelrun, slices
+    progs = []
+    summaries = []
+    for index, sl in enumerate(slices.for_property(prop, tier)):
+        cfg = modelrun.write_cfg("mc-" + prop, sl["consts"], sl["inv"])
+        res = modelrun.model_check(sl["module"], cfg)
+        if res["violated"]:
+            raise common.MachineryError(
+                "model-level invariant %s violated in %s: the specification no longer satisfies "
+                "the property it is supposed to decide\n%s"
+                % (res["violated"], sl["name"], res["output"][-3000:]))
+        simconsts = dict(sl["consts"])
+        simconsts["Depth"] = sl["simdepth"]
+        simcfg = modelrun.write_cfg("sim-" + prop, simconsts, sl["inv"], constraint="Emit",
+                                    view=None)
+        behs, violated, out = modelrun.behaviours(sl["module"], simcfg,
+                                                  num=SIM_COUNT[tier] + 4,
+                                                  depth=sl["simdepth"], seed=seed + index)
+        if violated:
+            raise common.MachineryError("model-level invariant %s violated during simulation of "
+                                        "%s\n%s" % (violated, sl["name"], out[-3000:]))
+        picked = modelrun.sample(behs, SIM_COUNT[tier], seed + index)
+        profile = modelrun.Profile(sl["profile"])
+        for hist in picked:
+            cfgd = {"g90e": False, "enter": [], "exit": [], "xg": {}, "at": None}
+            cfgd.update(sl.get("cfg", {}))
+            prog = gen_motion.Program(cfgd, seed)
+            prog.steps = modelrun.concretise(profile, hist, sl["first"], sl["escale"])
+            prog.focus = "model:" + sl["name"]
+            progs.append(prog)
+        summaries.append({"slice": sl["name"], "states": res["states"],
+                          "transitions": res["transitions"], "depth": res["depth"],
+                          "constants": dict((k, str(v)) for k, v in sl["consts"].items()),
+                          "invariants": sl["inv"], "behaviours_exported": len(behs),
+                          "behaviours_replayed": len(picked)})
+    return progs, summaries
+
+
+def t1_summary(traces):
+    """White-box conformance of recorded traces with Filter.tla (never a VIOLATION by itself)."""
+    verdicts = common.validate_traces("TraceT1", "TraceT1.cfg", traces, "t1")
+    summary = {"conform": 0, "diverged": 0, "unmodelled": 0, "first_divergences": []}
+    for rec in verdicts:
+        verdict = rec["t1"]
+        summary[verdict["c"]] += 1
+        if verdict["c"] == "diverged" and len(summary["first_divergences"]) < 5:
+            summary["first_divergences"].append(
+                {"trace": rec["id"], "step": verdict["s"], "field": verdict["f"]})
+    return summary
+
+
 def run(prop, tier, seed):
     started = time.time()
     count = COUNTS[tier]
     progs = gen_programs(prop, count, seed)
-    traces = [record.run_filter_program(p, i + 1, keep_state=False) for i, p in enumerate(progs)]
+    mprogs, mcs = model_guided(prop, tier, seed)
+    progs = mprogs + progs
+    traces = [record.run_filter_program(p, i + 1, keep_state=True) for i, p in enumerate(progs)]
     verdicts = common.validate_traces("TraceT2", "TraceT2.cfg", traces, "t2-" + prop)
-    status, coverage, nviol = judge(prop, progs, traces, verdicts, started, tier, seed)
+    # sub-resolution values (1e-5 mm extrusion quanta) are below the model's native unit
+    t1 = t1_summary([t for t, p in zip(traces, progs) if getattr(p, "focus", "") != "tiny"])
+    extra = {
+        "t1_conformance": t1,
+        "model_conformant": t1["diverged"] == 0,
+        "model_behaviours_replayed": len(mprogs),
+        "random_programs": count,
+        "model_checking": mcs,
+    }
+    level = "model_checking" if mcs else "exploration"
+    if mcs:
+        extra["states"] = sum(m["states"] for m in mcs)
+        extra["transitions"] = sum(m["transitions"] for m in mcs)
+        extra["exhaustive"] = True
+    status, coverage, nviol = judge(prop, progs, traces, verdicts, started, tier, seed, extra)
+    if t1["diverged"]:
+        common.log("note: %d traces diverge from Filter.tla (first: %s) -- the exhaustive model "
+                   "result is not transferred to this tree; verdict rests on the contract "
+                   "monitors" % (t1["diverged"], t1["first_divergences"][:1]))
     evidence = {
-        "property_id": prop, "tier": tier, "seed": seed, "level": "exploration",
+        "property_id": prop, "tier": tier, "seed": seed, "level": level,
         "coverage": coverage,
         "assumptions": [
             "reference printer semantics of spec/Printer.tla (Marlin 1.1.x)",
             "projection alpha and firmware-style reader in harness/fwread.py",
             "monitor scope flags of spec/Contract.tla (DESIGN.md section 6)",
+            "exhaustive results hold for the slice constants listed under model_checking and "
+            "transfer to the code only while t1_conformance.diverged = 0",
         ],
         "wall_s": round(time.time() - started, 2),
         "violations": nviol,
